@@ -144,7 +144,7 @@ def replay(case):
 
 
 def rawdict(r):
-    return {k: np.asarray(r._data[k]).copy() for k in RAWK}
+    return {k: np.asarray(getattr(r, k)).copy() for k in RAWK}
 
 
 def same(a, b):
@@ -201,7 +201,7 @@ def _nonfinite(shard):
             k = same(rawdict(r), rawdict(clean))
             if k is not None and f"result/{tag}" not in seen:
                 seen.add(f"result/{tag}")
-                out["failures"].append(fw.fail(f"result/{tag}", f"{kind} at positions {idx} of {who}: field {k} differs from the zero-filled record's result: {np.asarray(r._data[k]).tolist()} vs {np.asarray(clean._data[k]).tolist()}", case))
+                out["failures"].append(fw.fail(f"result/{tag}", f"{kind} at positions {idx} of {who}: field {k} differs from the zero-filled record's result: {np.asarray(getattr(r, k)).tolist()} vs {np.asarray(getattr(clean, k)).tolist()}", case))
             out["extra"]["caller_arrays_checked"] += len(snaps)
             for s, b in zip(snaps, before):
                 if s.tobytes() != b and f"mutated/{tag}" not in seen:
